@@ -1714,10 +1714,8 @@ let rec bt_insert k v l = match l with
 
 (** val int_json_text : z -> string **)
 
-let int_json_text z0 =
-  append (z_to_string z0) (String ((Ascii (false, true, true, true, false,
-    true, false, false)), (String ((Ascii (false, false, false, false, true,
-    true, false, false)), EmptyString))))
+let int_json_text =
+  z_to_string
 
 (** val num_to_json : num -> jvalue **)
 
@@ -2740,9 +2738,14 @@ and token_slice f root ts st =
       bind (token_resolve f' root t st) (fun pat ->
         let (v, st1) = pat in
         bind (interp_while_str f' root v st1) (fun pat0 ->
-          let (v', _) = pat0 in
-          bind (raw_string v') (fun s ->
-            bind (go ts') (fun rest -> Ok (append s rest)))))
+          let (v', st2) = pat0 in
+          bind
+            (if (||) (is_mapping v') (is_sequence v')
+             then interp f' root v' st2
+             else Ok (v', st2)) (fun pat1 ->
+            let (v'', _) = pat1 in
+            bind (raw_string v'') (fun s ->
+              bind (go ts') (fun rest -> Ok (append s rest))))))
     in go ts
 
 (** val interp_sov :
@@ -4483,6 +4486,157 @@ let rec inventory_of rs inv =
 let empty_inventory =
   { inv_apps = []; inv_classes = []; inv_nodes = [] }
 
+(** val sorted_insert :
+    string -> string -> (string * string) list -> (string * string) list **)
+
+let rec sorted_insert k v l = match l with
+| [] -> (k, v) :: []
+| p :: l' ->
+  let (k', v') = p in
+  if eqb1 k k'
+  then (k, v) :: l'
+  else if ltb0 k k' then (k, v) :: l else (k', v') :: (sorted_insert k v l')
+
+(** val spec_key : value -> string option **)
+
+let spec_key = function
+| VNull ->
+  Some (String ((Ascii (false, true, true, true, false, true, true, false)),
+    (String ((Ascii (true, false, true, false, true, true, true, false)),
+    (String ((Ascii (false, false, true, true, false, true, true, false)),
+    (String ((Ascii (false, false, true, true, false, true, true, false)),
+    EmptyString))))))))
+| VBool b ->
+  if b
+  then Some (String ((Ascii (false, false, true, false, true, true, true,
+         false)), (String ((Ascii (false, true, false, false, true, true,
+         true, false)), (String ((Ascii (true, false, true, false, true,
+         true, true, false)), (String ((Ascii (true, false, true, false,
+         false, true, true, false)), EmptyString))))))))
+  else Some (String ((Ascii (false, true, true, false, false, true, true,
+         false)), (String ((Ascii (true, false, false, false, false, true,
+         true, false)), (String ((Ascii (false, false, true, true, false,
+         true, true, false)), (String ((Ascii (true, true, false, false,
+         true, true, true, false)), (String ((Ascii (true, false, true,
+         false, false, true, true, false)), EmptyString))))))))))
+| VStr s -> Some s
+| VLit s -> Some s
+| VNum n0 -> Some (num_display n0)
+| _ -> None
+
+(** val spec_num : num -> string **)
+
+let spec_num = function
+| NInt z0 -> z_to_string z0
+| NFloat f ->
+  (match f.fk with
+   | FFinite -> f.f_json
+   | _ -> json_string f.f_yaml)
+
+(** val spec_json : value -> string option **)
+
+let rec spec_json = function
+| VNull ->
+  Some (String ((Ascii (false, true, true, true, false, true, true, false)),
+    (String ((Ascii (true, false, true, false, true, true, true, false)),
+    (String ((Ascii (false, false, true, true, false, true, true, false)),
+    (String ((Ascii (false, false, true, true, false, true, true, false)),
+    EmptyString))))))))
+| VBool b ->
+  if b
+  then Some (String ((Ascii (false, false, true, false, true, true, true,
+         false)), (String ((Ascii (false, true, false, false, true, true,
+         true, false)), (String ((Ascii (true, false, true, false, true,
+         true, true, false)), (String ((Ascii (true, false, true, false,
+         false, true, true, false)), EmptyString))))))))
+  else Some (String ((Ascii (false, true, true, false, false, true, true,
+         false)), (String ((Ascii (true, false, false, false, false, true,
+         true, false)), (String ((Ascii (false, false, true, true, false,
+         true, true, false)), (String ((Ascii (true, true, false, false,
+         true, true, true, false)), (String ((Ascii (true, false, true,
+         false, false, true, true, false)), EmptyString))))))))))
+| VLit s -> Some (json_string s)
+| VNum n0 -> Some (spec_num n0)
+| VMap es ->
+  option_map (fun kvs ->
+    append (String ((Ascii (true, true, false, true, true, true, true,
+      false)), EmptyString))
+      (append
+        (join (String ((Ascii (false, false, true, true, false, true, false,
+          false)), EmptyString))
+          (map (fun pat ->
+            let (k, t) = pat in
+            append (json_string k)
+              (append (String ((Ascii (false, true, false, true, true, true,
+                false, false)), EmptyString)) t)) kvs)) (String ((Ascii
+        (true, false, true, true, true, true, true, false)), EmptyString))))
+    (let rec go es0 acc =
+       match es0 with
+       | [] -> Some acc
+       | e :: es' ->
+         let (p, _) = e in
+         let (p0, _) = p in
+         let (k, x) = p0 in
+         (match spec_key k with
+          | Some ks ->
+            (match spec_json x with
+             | Some t -> go es' (sorted_insert ks t acc)
+             | None -> None)
+          | None -> None)
+     in go es [])
+| VSeq l ->
+  option_map (fun body ->
+    append (String ((Ascii (true, true, false, true, true, false, true,
+      false)), EmptyString))
+      (append body (String ((Ascii (true, false, true, true, true, false,
+        true, false)), EmptyString))))
+    (let rec go = function
+     | [] -> Some EmptyString
+     | x :: xs ->
+       (match xs with
+        | [] -> spec_json x
+        | _ :: _ ->
+          (match spec_json x with
+           | Some a ->
+             (match go xs with
+              | Some b ->
+                Some
+                  (append a
+                    (append (String ((Ascii (false, false, true, true, false,
+                      true, false, false)), EmptyString)) b))
+              | None -> None)
+           | None -> None))
+     in go l)
+| _ -> None
+
+(** val text_of : value -> string option **)
+
+let text_of v = match v with
+| VNull ->
+  Some (String ((Ascii (false, true, true, true, false, false, true, false)),
+    (String ((Ascii (true, true, true, true, false, true, true, false)),
+    (String ((Ascii (false, true, true, true, false, true, true, false)),
+    (String ((Ascii (true, false, true, false, false, true, true, false)),
+    EmptyString))))))))
+| VBool b ->
+  if b
+  then Some (String ((Ascii (false, false, true, false, true, false, true,
+         false)), (String ((Ascii (false, true, false, false, true, true,
+         true, false)), (String ((Ascii (true, false, true, false, true,
+         true, true, false)), (String ((Ascii (true, false, true, false,
+         false, true, true, false)), EmptyString))))))))
+  else Some (String ((Ascii (false, true, true, false, false, false, true,
+         false)), (String ((Ascii (true, false, false, false, false, true,
+         true, false)), (String ((Ascii (false, false, true, true, false,
+         true, true, false)), (String ((Ascii (true, true, false, false,
+         true, true, true, false)), (String ((Ascii (true, false, true,
+         false, false, true, true, false)), EmptyString))))))))))
+| VStr _ -> None
+| VLit s -> Some s
+| VNum n0 -> Some (num_display n0)
+| VList _ -> None
+| _ -> spec_json v
+
 (** val run_fuel : nat **)
 
 let run_fuel =
@@ -5328,6 +5482,36 @@ let canon_inventory inv =
                       false)), (String ((Ascii (true, true, true, true, true,
                       true, false, false)), EmptyString)))))))) nodes)))))))
 
+(** val is_ok : 'a1 res -> bool **)
+
+let is_ok = function
+| Ok _ -> true
+| _ -> false
+
+(** val canon_inv_result : (string * nodeinfo res) list -> string **)
+
+let canon_inv_result rs =
+  match filter (fun pat -> let (_, r) = pat in negb (is_ok r)) rs with
+  | [] -> canon_res canon_inventory (inventory_of rs empty_inventory)
+  | p :: l ->
+    append (String ((Ascii (true, false, true, false, false, true, true,
+      false)), (String ((Ascii (false, true, false, false, true, true, true,
+      false)), (String ((Ascii (false, true, false, false, true, true, true,
+      false)), (String ((Ascii (true, true, false, false, true, true, true,
+      false)), EmptyString))))))))
+      (concat_str
+        (map (fun pat ->
+          let (n0, r) = pat in
+          append (String ((Ascii (false, false, false, false, false, true,
+            false, false)), (String ((Ascii (false, false, true, true, true,
+            true, true, false)), (String ((Ascii (false, false, true, true,
+            true, true, true, false)), (String ((Ascii (false, false, false,
+            false, false, true, false, false)), EmptyString))))))))
+            (append (hx n0)
+              (append (String ((Ascii (false, false, false, false, false,
+                true, false, false)), EmptyString))
+                (canon_res (fun _ -> EmptyString) r)))) (p :: l)))
+
 (** val run_inv : string list -> string **)
 
 let run_inv = function
@@ -5439,38 +5623,56 @@ let run_inv = function
                                            ((Ascii (false, false, true, true,
                                            false, true, true, false)),
                                            EmptyString))))))
-                                      then canon_res canon_inventory
-                                             (bind tables (fun pat ->
-                                               let (nt, ct) = pat in
-                                               inventory_of
-                                                 (map (fun ne -> (ne.ne_name,
-                                                   (render_node inc_fuel
-                                                     run_fuel cfg (String
-                                                     ((Ascii (false, false,
-                                                     true, true, true, true,
-                                                     false, false)), (String
-                                                     ((Ascii (false, true,
-                                                     true, true, false,
-                                                     false, true, false)),
-                                                     (String ((Ascii (true,
-                                                     true, true, true, false,
-                                                     false, true, false)),
-                                                     (String ((Ascii (false,
-                                                     false, true, false,
-                                                     false, false, true,
-                                                     false)), (String ((Ascii
-                                                     (true, false, true,
-                                                     false, false, false,
-                                                     true, false)), (String
-                                                     ((Ascii (true, true,
-                                                     false, false, true,
-                                                     false, true, false)),
-                                                     (String ((Ascii (false,
-                                                     true, true, true, true,
-                                                     true, false, false)),
-                                                     EmptyString))))))))))))))
-                                                     nt ct ne.ne_name))) nt)
-                                                 empty_inventory))
+                                      then (match tables with
+                                            | Ok a ->
+                                              let (nt, ct) = a in
+                                              canon_inv_result
+                                                (map (fun ne -> (ne.ne_name,
+                                                  (render_node inc_fuel
+                                                    run_fuel cfg (String
+                                                    ((Ascii (false, false,
+                                                    true, true, true, true,
+                                                    false, false)), (String
+                                                    ((Ascii (false, true,
+                                                    true, true, false, false,
+                                                    true, false)), (String
+                                                    ((Ascii (true, true,
+                                                    true, true, false, false,
+                                                    true, false)), (String
+                                                    ((Ascii (false, false,
+                                                    true, false, false,
+                                                    false, true, false)),
+                                                    (String ((Ascii (true,
+                                                    false, true, false,
+                                                    false, false, true,
+                                                    false)), (String ((Ascii
+                                                    (true, true, false,
+                                                    false, true, false, true,
+                                                    false)), (String ((Ascii
+                                                    (false, true, true, true,
+                                                    true, true, false,
+                                                    false)),
+                                                    EmptyString))))))))))))))
+                                                    nt ct ne.ne_name))) nt)
+                                            | Err e ->
+                                              canon_res (fun _ ->
+                                                EmptyString) (Err e)
+                                            | Panic s ->
+                                              canon_res (fun _ ->
+                                                EmptyString) (Panic s)
+                                            | OutOfFuel ->
+                                              String ((Ascii (false, true,
+                                                true, false, false, true,
+                                                true, false)), (String
+                                                ((Ascii (true, false, true,
+                                                false, true, true, true,
+                                                false)), (String ((Ascii
+                                                (true, false, true, false,
+                                                false, true, true, false)),
+                                                (String ((Ascii (false,
+                                                false, true, true, false,
+                                                true, true, false)),
+                                                EmptyString))))))))
                                       else if eqb1 op (String ((Ascii (false,
                                                 true, true, true, false,
                                                 true, true, false)), (String
@@ -6761,3 +6963,107 @@ let run_line2 line =
                  EmptyString))))))
             then append id (append tab (run_abs ts))
             else run_line line)
+
+(** val literalize : value -> value **)
+
+let rec literalize v = match v with
+| VStr s -> VLit s
+| VMap es ->
+  VMap
+    (map (fun pat ->
+      let (y, o) = pat in
+      let (y0, c) = y in let (k, x) = y0 in (((k, (literalize x)), c), o)) es)
+| VSeq l -> VSeq (map literalize l)
+| _ -> v
+
+(** val run_textof : string list -> string **)
+
+let run_textof ts =
+  match p_yaml (S (length ts)) ts with
+  | Some p ->
+    let (y, l) = p in
+    (match l with
+     | [] ->
+       (match value_of_yaml y with
+        | Ok v ->
+          (match text_of (literalize v) with
+           | Some s ->
+             sp (String ((Ascii (true, true, true, true, false, true, true,
+               false)), (String ((Ascii (true, true, false, true, false,
+               true, true, false)), EmptyString)))) (hx s)
+           | None ->
+             String ((Ascii (false, true, true, true, false, true, true,
+               false)), (String ((Ascii (true, true, true, true, false, true,
+               true, false)), (String ((Ascii (false, false, true, false,
+               true, true, true, false)), (String ((Ascii (true, true, false,
+               false, false, true, true, false)), (String ((Ascii (false,
+               false, true, true, false, true, true, false)), (String ((Ascii
+               (true, true, true, true, false, true, true, false)), (String
+               ((Ascii (true, true, false, false, true, true, true, false)),
+               (String ((Ascii (true, false, true, false, false, true, true,
+               false)), (String ((Ascii (false, false, true, false, false,
+               true, true, false)), EmptyString))))))))))))))))))
+        | _ ->
+          String ((Ascii (false, true, false, false, false, true, true,
+            false)), (String ((Ascii (true, false, false, false, false, true,
+            true, false)), (String ((Ascii (false, false, true, false, false,
+            true, true, false)), (String ((Ascii (true, true, false, false,
+            false, true, true, false)), (String ((Ascii (true, false, false,
+            false, false, true, true, false)), (String ((Ascii (true, true,
+            false, false, true, true, true, false)), (String ((Ascii (true,
+            false, true, false, false, true, true, false)),
+            EmptyString))))))))))))))
+     | _ :: _ ->
+       String ((Ascii (false, true, false, false, false, true, true, false)),
+         (String ((Ascii (true, false, false, false, false, true, true,
+         false)), (String ((Ascii (false, false, true, false, false, true,
+         true, false)), (String ((Ascii (true, true, false, false, false,
+         true, true, false)), (String ((Ascii (true, false, false, false,
+         false, true, true, false)), (String ((Ascii (true, true, false,
+         false, true, true, true, false)), (String ((Ascii (true, false,
+         true, false, false, true, true, false)), EmptyString))))))))))))))
+  | None ->
+    String ((Ascii (false, true, false, false, false, true, true, false)),
+      (String ((Ascii (true, false, false, false, false, true, true, false)),
+      (String ((Ascii (false, false, true, false, false, true, true, false)),
+      (String ((Ascii (true, true, false, false, false, true, true, false)),
+      (String ((Ascii (true, false, false, false, false, true, true, false)),
+      (String ((Ascii (true, true, false, false, true, true, true, false)),
+      (String ((Ascii (true, false, true, false, false, true, true, false)),
+      EmptyString)))))))))))))
+
+(** val run_line3 : string -> string **)
+
+let run_line3 line =
+  match words line with
+  | [] ->
+    String ((Ascii (false, true, false, false, false, true, true, false)),
+      (String ((Ascii (true, false, false, false, false, true, true, false)),
+      (String ((Ascii (false, false, true, false, false, true, true, false)),
+      (String ((Ascii (false, false, true, true, false, true, true, false)),
+      (String ((Ascii (true, false, false, true, false, true, true, false)),
+      (String ((Ascii (false, true, true, true, false, true, true, false)),
+      (String ((Ascii (true, false, true, false, false, true, true, false)),
+      EmptyString)))))))))))))
+  | id :: l ->
+    (match l with
+     | [] ->
+       String ((Ascii (false, true, false, false, false, true, true, false)),
+         (String ((Ascii (true, false, false, false, false, true, true,
+         false)), (String ((Ascii (false, false, true, false, false, true,
+         true, false)), (String ((Ascii (false, false, true, true, false,
+         true, true, false)), (String ((Ascii (true, false, false, true,
+         false, true, true, false)), (String ((Ascii (false, true, true,
+         true, false, true, true, false)), (String ((Ascii (true, false,
+         true, false, false, true, true, false)), EmptyString)))))))))))))
+     | mode :: ts ->
+       if eqb1 mode (String ((Ascii (false, false, true, false, true, true,
+            true, false)), (String ((Ascii (true, false, true, false, false,
+            true, true, false)), (String ((Ascii (false, false, false, true,
+            true, true, true, false)), (String ((Ascii (false, false, true,
+            false, true, true, true, false)), (String ((Ascii (true, true,
+            true, true, false, true, true, false)), (String ((Ascii (false,
+            true, true, false, false, true, true, false)),
+            EmptyString))))))))))))
+       then append id (append tab (run_textof ts))
+       else run_line2 line)
